@@ -40,10 +40,12 @@ Recipients == [i \in Items |-> IF i = "m1" THEN <<"grp">> ELSE <<>>]
 ActorOf == [i \in Items |-> IF Kind[i] # "activity" THEN "none" ELSE IF World = "w1" THEN "alice" ELSE "carol"]
 TargetOf == [i \in Items |-> CASE i = "a1" -> "n1" [] i = "a2" -> "n3" [] i = "c1" -> "m1" [] i = "c2" -> "m2"
                                 [] i = "c3" -> "m3" [] i = "c4" -> "m4" [] i = "c5" -> "m5" [] OTHER -> "none"]
-NLinks == [i \in Items |-> CASE i = "n1" -> 2 [] i = "alice" -> 1 [] i = "m1" -> 1 [] OTHER -> 0]
+NLinks == [i \in Items |-> CASE i = "n1" -> 2 [] i = "alice" -> 1 [] i = "m1" -> 1 [] i = "q4" -> 12 [] OTHER -> 0]
 (* what opening link k of item i internally yields *)
-LinkTarget == [i \in Items |-> [k \in 1..2 |-> CASE i = "n1" /\ k = 1 -> "n3" [] i = "alice" /\ k = 1 -> "n3"
-                                                   [] i = "m1" /\ k = 1 -> "q4" [] OTHER -> "fo"]]
+(* q4 (w2) carries twelve links so that two-digit and zero-padded numbers name something: 8 -> q1, 10 -> q3 *)
+LinkTarget == [i \in Items |-> [k \in 1..12 |-> CASE i = "n1" /\ k = 1 -> "n3" [] i = "alice" /\ k = 1 -> "n3"
+                                                   [] i = "m1" /\ k = 1 -> "q4"
+                                                   [] i = "q4" /\ k = 8 -> "q1" [] i = "q4" /\ k = 10 -> "q3" [] OTHER -> "fo"]]
 HasMedia == [i \in Items |-> i \in {"n3", "m2"}]
 HasPic == [i \in Items |-> i \in {"alice", "carol"}]
 HasBanner == [i \in Items |-> i = "carol"]
@@ -78,7 +80,7 @@ OutHook(st, kind, item, n) == [st |-> st, hook |-> [k |-> kind, item |-> item, n
 
 \* ------------------------------------------------------------------ keys
 Digits == {"0", "1", "2", "3", "4", "5", "6", "7", "8", "9"}
-CmdToks == {"open_a", "open_p", "open_c", "open_bad", "feed_f", "feed_u", "bad_cmd"}
+CmdToks == {"open_a", "open_p", "open_c", "open_bad", "open_empty", "feed_f", "feed_u", "bad_cmd"}   \* open_empty: "open " - the command with an empty argument
 CharKeys == {"j", "k", "g", "h", "l", "sp", "c", "r", "a", "o", "p", "b", "x", "hi", "dot"} \cup Digits \cup {"colon"}   \* "x": an unbound ASCII key, "hi": a byte >= 0x80
 Keys == CharKeys \cup {"enter", "esc", "bs"} \cup CmdToks
 
@@ -110,10 +112,10 @@ RunCommand(st) ==
         CASE st.buf[1] = "open_a"     -> Push(n, ItemPage(OpenActor))
           [] st.buf[1] = "open_p"     -> Push(n, ItemPage(OpenPost))
           [] st.buf[1] = "open_c"     -> Push(n, ListPage(Kids[OpenActor]))    \* a collection opened by its address: a page listing its items
-          [] st.buf[1] = "open_bad"   -> Push(n, ItemPage("fo"))
+          [] st.buf[1] \in {"open_bad", "open_empty"} -> Push(n, ItemPage("fo"))
           [] st.buf[1] = "feed_f"     -> Push(n, ListPage(FeedF))
           [] OTHER                    -> n          \* unknown feed, unknown command, no space: a problem frame at most
-    ELSE IF Len(st.buf) > 1 /\ st.buf[1] \in {"open_a", "open_p", "open_c", "open_bad"} THEN Push(n, ItemPage("fo"))   \* text after the URL
+    ELSE IF Len(st.buf) > 1 /\ st.buf[1] \in {"open_a", "open_p", "open_c", "open_bad", "open_empty"} THEN Push(n, ItemPage("fo"))   \* text after the URL
     ELSE n
 
 (* the dispatcher, in the order of ui.Update; keys are ignored while loading, which a settled UI never is *)
